@@ -22,6 +22,10 @@ ENGINE_TRUSTED = [
 ]
 
 
+# signature of a root-cause finding -> short tag appended to the signatures of its downstream symptoms
+ROOT_CAUSES = {"ack:reentrant-relock-answered-before-acknowledgement": "reentrant-ack-relock"}
+
+
 def theorems_of(pid):
     res = []
     for f in sorted(glob.glob(os.path.join(vlib.COQ, "Properties", pid + "*.v"))):
@@ -95,9 +99,18 @@ def run_engine_check(ctx, pid, profiles, monitors, n_quick, n_thorough, known_ok
         nrep = sum(len(st["replies"]) for st in tr.steps)
         if nrep >= 3:
             nontrivial.add(hash(tuple(c[1:])))
+        found = []
         for name in monitors:
             for sig, desc, idx in em.MONITORS[name](tr):
-                hits.setdefault(sig, []).append((c, desc, idx, name))
+                found.append((sig, desc, idx, name))
+        # consequences of a recorded root cause are reported under the root cause's name, so that the same symptom with
+        # another cause is still a new violation
+        roots = [(idx, sig) for sig, _, idx, _ in found if sig in ROOT_CAUSES]
+        for sig, desc, idx, name in found:
+            r = [rs for ri, rs in roots if ri <= idx and rs != sig]
+            if r and sig not in ROOT_CAUSES:
+                sig = sig + "<-" + ROOT_CAUSES[r[0]]
+            hits.setdefault(sig, []).append((c, desc, idx, name))
     # ------------------------------------------------------------------ classification
     new_inputs = 0
     for sig, lst in hits.items():
@@ -153,7 +166,13 @@ def _still(run, case, name, sig):
         return False
     tr = em.Trace(case, pi[cid])
     try:
-        return any(s == sig for s, _, _ in em.MONITORS[name](tr))
+        found = [(s, i) for s, _, i in em.MONITORS[name](tr)]
+        base = sig.split("<-")[0]
+        if "<-" in sig:
+            tag = sig.split("<-")[1]
+            roots = [i for mn in em.MONITORS for s, _, i in (em.MONITORS[mn](tr) if mn in ("C11",) else []) if ROOT_CAUSES.get(s) == tag]
+            return any(s == base and any(r <= i for r in roots) for s, i in found)
+        return any(s == base for s, i in found)
     except Exception:
         return False
 
